@@ -498,20 +498,20 @@ Proof. intros iv []. Qed.
 Lemma view_assert_some d n r x : view_assert d n r = Some x -> r = Some x.
 Proof. unfold view_assert, obind. destruct r as [y|]; [|discriminate]. destruct (_ || _); [intros E; exact E|discriminate]. Qed.
 
-Theorem gp_endpoint_admissible d c afl best n m hist dec f r :
+Theorem gp_endpoint_admissible d c afl aft best n m hist dec f r :
   wf_domain d = true -> cons_two d -> (is_constrained d = true -> RP.interior (oh_dom d) c) -> mode_ok m ->
   (n <= length (o_cats dec))%nat ->
-  (forall xs pts, gp_stage d [] c afl best n m = SOk xs -> convert_from_one_hot d (is_qei m) (afl []) dec xs = Some pts ->
+  (forall xs pts, gp_stage d [] c afl best n m = SOk xs -> convert_from_one_hot d (is_qei m) aft dec xs = Some pts ->
      fill_prim d c (fill_k d pts hist) hist f) ->
-  gp_endpoint d c afl best n m hist dec f = Some r -> resp_ok d [] n r.
+  gp_endpoint d c afl aft best n m hist dec f = Some r -> resp_ok d [] n r.
 Proof.
   intros Hwf H2 Hi Hm Hl Hf H. unfold gp_endpoint in H.
   destruct (gp_stage d [] c afl best n m) as [xs|e] eqn:Es; [|discriminate].
   destruct (gp_stage_relaxed_ok d [] c afl best n m xs (conj Hwf (conj H2 (conj Hi (fixed_valid_nil _)))) Hm Es) as [Hxs Hlen].
-  unfold obind in H. destruct (convert_from_one_hot d (is_qei m) (afl []) dec xs) as [pts|] eqn:Ec; [|discriminate].
+  unfold obind in H. destruct (convert_from_one_hot d (is_qei m) aft dec xs) as [pts|] eqn:Ec; [|discriminate].
   destruct (mk_qorc d c (fill_k d pts hist) (f_so f) (f_cols f) (f_dec f)) as [q|] eqn:Eq; [|discriminate].
   apply view_assert_some in H. rewrite <- Hlen.
-  eapply (tail_gp_admissible d (is_qei m) (afl []) xs hist []); [exact Hwf|exact Hxs| | |exact H]; cbn [g_dec g_choice g_q]; [lia|].
+  eapply (tail_gp_admissible d (is_qei m) aft xs hist []); [exact Hwf|exact Hxs| | |exact H]; cbn [g_dec g_choice g_q]; [lia|].
   intros pts' u2 Ec' Ek. rewrite Ec in Ec'. injection Ec' as <-.
   pose proof (fill_prim_contract d c _ hist f q Hwf Hi (Hf xs pts eq_refl Ec) Eq) as Fc. unfold fill_k in Fc. rewrite Ek in Fc. exact Fc.
 Qed.
@@ -555,15 +555,15 @@ Proof.
     rewrite app_nth2 by lia. rewrite L, Nat.sub_diag. reflexivity.
 Qed.
 
-Theorem gp_endpoint_mt_admissible d opts t ct afl best n P pretest os hist_oh dec hdec f r :
+Theorem gp_endpoint_mt_admissible d opts t ct afl aft best n P pretest os hist_oh dec hdec f r :
   wf_domain d = true -> opts <> [] -> list_min opts < list_max opts -> In t opts -> cons_two d ->
   (is_constrained d = true -> RP.interior (oh_dom (with_task d opts)) ct) -> Forall vorc_ok os ->
   (n <= length (o_cats dec))%nat ->
   (forall xs pts aug, cl_stage (with_task d opts) (task_fixed d t) ct afl best P pretest n os = SOk xs ->
-     convert_from_one_hot (with_task d opts) false (afl []) dec xs = Some pts ->
+     convert_from_one_hot (with_task d opts) false aft dec xs = Some pts ->
      decode_b (with_task d opts) hdec hist_oh = Some aug ->
      fill_prim (with_task d opts) ct (fill_k (with_task d opts) pts aug) aug f) ->
-  gp_endpoint_mt d opts t ct afl best n P pretest os hist_oh dec hdec f = Some r -> resp_ok d opts n r.
+  gp_endpoint_mt d opts t ct afl aft best n P pretest os hist_oh dec hdec f = Some r -> resp_ok d opts n r.
 Proof.
   intros Hwf Hne Hlt Ht H2 Hi Hos Hl Hf H. unfold gp_endpoint_mt in H. set (dt := with_task d opts) in *.
   pose proof (with_task_wf d opts Hwf Hlt) as Hwt.
@@ -573,11 +573,11 @@ Proof.
   { split; [exact Hwt|]. split; [apply cons_two_with_task; assumption|]. split; [exact Hit|apply task_fixed_valid; assumption]. }
   destruct (cl_stage_feasible dt _ ct afl best P pretest n os xs Hctx Hos Es) as [Hfe Hlen].
   assert (Hxs : Forall (relaxed_ok dt) xs) by (eapply Forall_impl; [|exact Hfe]; intros p; apply feasible_relaxed_ok).
-  unfold obind in H. destruct (convert_from_one_hot dt false (afl []) dec xs) as [pts|] eqn:Ec; [|discriminate].
+  unfold obind in H. destruct (convert_from_one_hot dt false aft dec xs) as [pts|] eqn:Ec; [|discriminate].
   destruct (decode_b dt hdec hist_oh) as [aug|] eqn:Ea; [|discriminate].
   destruct (mk_qorc dt ct (fill_k dt pts aug) (f_so f) (f_cols f) (f_dec f)) as [q|] eqn:Eq; [|discriminate].
   apply view_assert_some in H. rewrite <- Hlen.
-  eapply (tail_gp_multitask_admissible d opts (afl []) xs [] hist_oh); [exact Hwf|exact Hne|exact Hlt|exact Hxs| | |exact H];
+  eapply (tail_gp_multitask_admissible d opts aft xs [] hist_oh); [exact Hwf|exact Hne|exact Hlt|exact Hxs| | |exact H];
     cbn [g_dec g_hdec g_choice g_q]; [lia|].
   intros pts' aug' u2 Ec' Ea' Ek. fold dt in Ec', Ea', Ek |- *. rewrite Ec in Ec'. injection Ec' as <-. rewrite Ea in Ea'. injection Ea' as <-.
   pose proof (fill_prim_contract dt ct _ aug f q Hwt Hit (Hf xs pts aug eq_refl Ec eq_refl) Eq) as Fc. unfold fill_k in Fc. rewrite Ek in Fc. exact Fc.
@@ -688,18 +688,18 @@ Proof.
 Qed.
 
 (* ---- the search endpoints *)
-Theorem search_endpoint_admissible d c ph u afl best n m afl_pi Pde maxiter pretest sos hist dec f r :
+Theorem search_endpoint_admissible d c ph u afl aft best n m afl_pi aft_pi Pde maxiter pretest sos hist dec f r :
   wf_domain d = true -> cons_two d -> (is_constrained d = true -> RP.interior (oh_dom d) c) ->
   mode_ok m -> Forall (fun o => unit_stream (so_us o)) sos -> (n <= length (o_cats dec))%nat ->
-  (forall afl' m' xs pts, gp_stage d [] c afl' best n m' = SOk xs -> convert_from_one_hot d (is_qei m') (afl' []) dec xs = Some pts ->
+  (forall afl' aft' m' xs pts, gp_stage d [] c afl' best n m' = SOk xs -> convert_from_one_hot d (is_qei m') aft' dec xs = Some pts ->
      fill_prim d c (fill_k d pts hist) hist f) ->
-  search_endpoint d c ph u afl best n m afl_pi Pde maxiter pretest sos hist dec f = Some r -> resp_ok d [] n r.
+  search_endpoint d c ph u afl aft best n m afl_pi aft_pi Pde maxiter pretest sos hist dec f = Some r -> resp_ok d [] n r.
 Proof.
   intros Hwf H2 Hi Hm Hs Hl Hf H.
-  assert (G : exists afl' m', mode_ok m' /\ gp_endpoint d c afl' best n m' hist dec f = Some r).
-  { unfold search_endpoint in H. destruct ph; try (exists afl, m; split; assumption).
-    destruct (Qltb u RESOLVE_PHASE_PROB); [exists afl_pi, (GSearch Pde maxiter pretest sos)|exists afl, m]; split; assumption. }
-  destruct G as (afl' & m' & Hm' & G). eapply gp_endpoint_admissible; try eassumption. intros xs pts. apply Hf.
+  assert (G : exists afl' aft' m', mode_ok m' /\ gp_endpoint d c afl' aft' best n m' hist dec f = Some r).
+  { unfold search_endpoint in H. destruct ph; try (exists afl, aft, m; split; assumption).
+    destruct (Qltb u RESOLVE_PHASE_PROB); [exists afl_pi, aft_pi, (GSearch Pde maxiter pretest sos)|exists afl, aft, m]; split; assumption. }
+  destruct G as (afl' & aft' & m' & Hm' & G). eapply gp_endpoint_admissible; try eassumption. intros xs pts. apply Hf.
 Qed.
 Lemma spe_search_tail_as_spe d ps ph path n o :
   spe_search_tail d [] ps ph path n o = spe_tail d [] ps (match ph with SInit => SPERandom | SExploit => path | SResolve => SPEDraw end) n o.
@@ -731,8 +731,11 @@ Definition cx_dom : domain :=
 Definition cx_c : row := [1#2; 1#2; 1#2; 1#2].
 Definition cx_so : samp_orc := SRej [[[1; 1; 0; 1]; [1#2; 1#4; 1; 0]; [1#4; 1#2; 0; 1#2]]] [].
 Definition cx_dec : dorc := {| o_rnds := []; o_perms := []; o_cats := [[1%Z]; [2%Z]] |}.
-(* the acquisition function after `lies` lies: x + y - |lies| * (first one-hot coordinate) *)
-Definition cx_af (lies : list row) (p : row) : Q := Qred (nth 0 p 0 + nth 1 p 0 - inject_Z (Z.of_nat (length lies)) * nth 2 p 0).
+(* the acquisition function after `lies` lies: x + y - |lies| * (first one-hot coordinate), undefined (NaN) where y > 3/2;
+   cx_aft: the total function the neighbour search of the tail is given *)
+Definition cx_af (lies : list row) (p : row) : option Q :=
+  if Qltb (3#2) (nth 1 p 0) then None else Some (Qred (nth 0 p 0 + nth 1 p 0 - inject_Z (Z.of_nat (length lies)) * nth 2 p 0)).
+Definition cx_aft (p : row) : Q := Qred (nth 0 p 0 + nth 1 p 0).
 Definition cx_P : vpar := {| p_de := OP.mkde 3 4 true (1#2) 1; p_es_maxiter := 1; p_gd_n := 4; p_gd_maxiter := 2 |}.
 Definition cx_vorc : vorc :=
   {| v_gen_es := fun k => repeat cx_c k; v_gen_gd := fun k => repeat cx_c k;
@@ -804,9 +807,11 @@ Example gp_endpoint_example :
   wf_domain cx_dom = true /\ cons_two cx_dom /\ RP.interior (oh_dom cx_dom) cx_c /\ mode_ok cx_mode /\
   gp_stage cx_dom [] cx_c cx_af (fun _ => [1; 1; 1; 0]) 2 cx_mode = SOk [[7#4; 5#4; 1; 0]; [3#2; 1; 1#4; 3#4]] /\
   fill_prim cx_dom cx_c 1 cx_hist cx_fill /\
-  gp_endpoint cx_dom cx_c cx_af (fun _ => [1; 1; 1; 0]) 2 cx_mode cx_hist cx_dec cx_fill
-  = Some {| r_points := [[3#2; 1; 2]; [2#8; 2#4; 2]]; r_costs := None |}.
+  gp_endpoint cx_dom cx_c cx_af cx_aft (fun _ => [1; 1; 1; 0]) 2 cx_mode cx_hist cx_dec cx_fill
+  = Some {| r_points := [[3#2; 1; 2]; [2#8; 2#4; 2]]; r_costs := None |} /\
+  (* an acquisition function without any value: numpy.nanargmax raises ValueError, an error value of the stage *)
+  gp_stage cx_dom [] cx_c (fun _ _ => None) (fun _ => [1; 1; 1; 0]) 2 cx_mode = SErr (SOpt OP.ValueError).
 Proof.
   split; [reflexivity|]. split; [apply cons_twob_spec; reflexivity|]. split; [exact cx_interior|]. split; [exact cx_mode_ok|].
-  split; [vm_compute; reflexivity|]. split; [exact cx_fill_prim|]. vm_compute. reflexivity.
+  split; [vm_compute; reflexivity|]. split; [exact cx_fill_prim|]. split; vm_compute; reflexivity.
 Qed.
